@@ -63,30 +63,30 @@ theorem strack_sound_of_wfTrace {x : MonCtx} {t : STrackSt} {evs : List Ev} (hco
 /-- non-vacuity: a trace of 11 events on the diamond (polls answering `Some` / `Pending`, drops with
     and without wake-up, a signal, an early drop of the stream, a drop after it) is well-formed and
     accepted; the theorem makes it a model run that yields `0, 2, 1, 3`. -/
-def exCtx_R_R : MonCtx :=
+def exCtx_R_R_R : MonCtx :=
   { c := exDiamond_I, decls := [⟨[], [7], 0⟩, ⟨[], [], 1⟩, ⟨[], [], 2⟩, ⟨[7], [], 3⟩], userD := exDiamond_I.D,
     rev := false, control := false, interruptible := false, coop := false }
 
-def exEvs_R_R : List Ev :=
+def exEvs_R_R_R : List Ev :=
   [.poll (.some 0), .poll (.pending false), .drop 0 true, .poll (.some 2), .poll (.some 1), .drop 2 true,
    .intr, .drop 1 false, .poll (.some 3), .aborted, .drop 3 false]
 
 example : ∃ as : List SAction,
-    srun exCtx_R_R.c true (sinit exCtx_R_R.c) as = some (strackRun exCtx_R_R { ss := sinit exCtx_R_R.c } exEvs_R_R).1.ss ∧
+    srun exCtx_R_R_R.c true (sinit exCtx_R_R_R.c) as = some (strackRun exCtx_R_R_R { ss := sinit exCtx_R_R_R.c } exEvs_R_R_R).1.ss ∧
     as = [.poll, .poll, .drop 0, .poll, .poll, .drop 2, .interrupt, .drop 1, .poll, .dropStream, .drop 3] ∧
-    SReachable exCtx_R_R.c true (strackRun exCtx_R_R { ss := sinit exCtx_R_R.c } exEvs_R_R).1.ss ∧
-    (strackRun exCtx_R_R { ss := sinit exCtx_R_R.c } exEvs_R_R).1.ss.yielded = [0, 2, 1, 3] := by
-  have hok : ∀ n ∈ (strackRun exCtx_R_R { ss := sinit exCtx_R_R.c } exEvs_R_R).2, n.ok = true := by
-    have : ((strackRun exCtx_R_R { ss := sinit exCtx_R_R.c } exEvs_R_R).2.all Note.ok) = true := by decide
+    SReachable exCtx_R_R_R.c true (strackRun exCtx_R_R_R { ss := sinit exCtx_R_R_R.c } exEvs_R_R_R).1.ss ∧
+    (strackRun exCtx_R_R_R { ss := sinit exCtx_R_R_R.c } exEvs_R_R_R).1.ss.yielded = [0, 2, 1, 3] := by
+  have hok : ∀ n ∈ (strackRun exCtx_R_R_R { ss := sinit exCtx_R_R_R.c } exEvs_R_R_R).2, n.ok = true := by
+    have : ((strackRun exCtx_R_R_R { ss := sinit exCtx_R_R_R.c } exEvs_R_R_R).2.all Note.ok) = true := by decide
     exact List.all_eq_true.mp this
-  obtain ⟨as, h1, h2, h3⟩ := strack_sound_init (x := exCtx_R_R) (evs := exEvs_R_R) rfl (by decide) hok
+  obtain ⟨as, h1, h2, h3⟩ := strack_sound_init (x := exCtx_R_R_R) (evs := exEvs_R_R_R) rfl (by decide) hok
   exact ⟨as, h1, h2, h3, by decide⟩
 
 /-- the well-formedness hypothesis is needed: the notes only compare the wake flag of a drop, so the
     drop of a function that was never yielded is accepted, but it is not an enabled model action -/
-example : (∀ n ∈ (strackRun exCtx_R_R { ss := sinit exCtx_R_R.c } [.drop 2 false]).2, n.ok = true) ∧
+example : (∀ n ∈ (strackRun exCtx_R_R_R { ss := sinit exCtx_R_R_R.c } [.drop 2 false]).2, n.ok = true) ∧
     wfStreamTrace [.drop 2 false] = false ∧
-    srun exCtx_R_R.c true (sinit exCtx_R_R.c) ([Ev.drop 2 false].filterMap Ev.saction?) = none := by
+    srun exCtx_R_R_R.c true (sinit exCtx_R_R_R.c) ([Ev.drop 2 false].filterMap Ev.saction?) = none := by
   refine ⟨List.all_eq_true.mp (by decide), by decide, by decide⟩
 
 /-! ## 2. every model run satisfies the stream predicates -/
@@ -232,7 +232,7 @@ theorem spreds_hold_interruptible {x : MonCtx} (hx : GoodCtx x) (hi : x.interrup
 /-! ### the counterexample to the original statement -/
 
 /-- one function, `FinishCurrent`, but the context says "plain stream" -/
-def exBad_R_R : MonCtx :=
+def exBad_R_R_R : MonCtx :=
   { c := { D := ⟨1, []⟩, counts0 := [0], strat := .finish }, decls := [], userD := ⟨1, []⟩, rev := false,
     control := false, interruptible := false, coop := false }
 
@@ -249,7 +249,7 @@ theorem goodCtx_of_noDecls {x : MonCtx} (hg : GoodCfg x.c) (herr : x.c.errMode =
         simp [declOf, conflict]
       rw [this] at hc; cases hc }
 
-theorem exBad_good_R_R : GoodCtx exBad_R_R :=
+theorem exBad_good_R_R_R : GoodCtx exBad_R_R_R :=
   goodCtx_of_noDecls (goodCfg_of_check (by decide)) rfl rfl rfl rfl
 
 /-- **the original statement is false**: signal, poll (`Interrupted(None)`), poll (`None`) on the
@@ -259,32 +259,32 @@ theorem spreds_hold_original_false :
     ¬ (∀ (x : MonCtx), GoodCtx x → ∀ (evs : List Ev) (s : SState), SObsRun x (sinit x.c) evs s →
         ∀ n ∈ (spredRun x {} evs).2, n.ok = true) := by
   intro H
-  have hsome : (srun exBad_R_R.c true (sinit exBad_R_R.c) [.interrupt, .poll, .poll]).isSome = true := by decide
+  have hsome : (srun exBad_R_R_R.c true (sinit exBad_R_R_R.c) [.interrupt, .poll, .poll]).isSome = true := by decide
   obtain ⟨s', hs'⟩ := Option.isSome_iff_exists.mp hsome
-  have hrun := sobsRun_of_srun exBad_R_R _ _ _ hs'
-  have hall := List.all_eq_true.mpr (H exBad_R_R exBad_good_R_R _ _ hrun)
-  have hfalse : ((spredRun exBad_R_R {}
-      (sObsEvents exBad_R_R.c (sinit exBad_R_R.c) [.interrupt, .poll, .poll])).2.all Note.ok) = false := by decide
+  have hrun := sobsRun_of_srun exBad_R_R_R _ _ _ hs'
+  have hall := List.all_eq_true.mpr (H exBad_R_R_R exBad_good_R_R_R _ _ hrun)
+  have hfalse : ((spredRun exBad_R_R_R {}
+      (sObsEvents exBad_R_R_R.c (sinit exBad_R_R_R.c) [.interrupt, .poll, .poll])).2.all Note.ok) = false := by decide
   rw [hfalse] at hall
   cases hall
 
 /-- what the harness would see of that run, and the failing note -/
-example : sObsEvents exBad_R_R.c (sinit exBad_R_R.c) [.interrupt, .poll, .poll] =
+example : sObsEvents exBad_R_R_R.c (sinit exBad_R_R_R.c) [.interrupt, .poll, .poll] =
     [.intr, .poll .inone, .poll .none] := by decide
-example : (spredRun exBad_R_R {} [.intr, .poll .inone, .poll .none]).2.map Note.ok = [false] := by decide
+example : (spredRun exBad_R_R_R {} [.intr, .poll .inone, .poll .none]).2.map Note.ok = [false] := by decide
 
 /-- the same run in an `interruptible` context satisfies every predicate (by the theorem) -/
-example : ∀ n ∈ (spredRun { exBad_R_R with interruptible := true } {}
-    (sObsEvents exBad_R_R.c (sinit exBad_R_R.c) [.interrupt, .poll, .poll])).2, n.ok = true := by
-  have hsome : (srun exBad_R_R.c true (sinit exBad_R_R.c) [.interrupt, .poll, .poll]).isSome = true := by decide
+example : ∀ n ∈ (spredRun { exBad_R_R_R with interruptible := true } {}
+    (sObsEvents exBad_R_R_R.c (sinit exBad_R_R_R.c) [.interrupt, .poll, .poll])).2, n.ok = true := by
+  have hsome : (srun exBad_R_R_R.c true (sinit exBad_R_R_R.c) [.interrupt, .poll, .poll]).isSome = true := by decide
   obtain ⟨s', hs'⟩ := Option.isSome_iff_exists.mp hsome
-  exact spreds_hold_interruptible (x := { exBad_R_R with interruptible := true })
+  exact spreds_hold_interruptible (x := { exBad_R_R_R with interruptible := true })
     (goodCtx_of_noDecls (goodCfg_of_check (by decide)) rfl rfl rfl rfl) rfl
-    (sobsRun_of_srun { exBad_R_R with interruptible := true } _ _ _ hs')
+    (sobsRun_of_srun { exBad_R_R_R with interruptible := true } _ _ _ hs')
 
 /-! ### non-vacuity of `spreds_hold` -/
 
-theorem exCtx_good_R_R : GoodCtx exCtx_R_R :=
+theorem exCtx_good_R_R_R : GoodCtx exCtx_R_R_R :=
   { good := exDiamond_good_I
     api := fun h => by cases h
     userN := rfl
@@ -292,7 +292,7 @@ theorem exCtx_good_R_R : GoodCtx exCtx_R_R :=
     userWF := exDiamond_good_I.wf
     ordered := by
       intro u v hu hv hne hc
-      have h03 : ReachP exCtx_R_R.c.D 0 3 :=
+      have h03 : ReachP exCtx_R_R_R.c.D 0 3 :=
         ReachP.tail (ReachP.edge ⟨⟨0, 1, .logic⟩, by decide, rfl, rfl⟩) ⟨⟨1, 3, .logic⟩, by decide, rfl, rfl⟩
       have hu' : u = 0 ∨ u = 1 ∨ u = 2 ∨ u = 3 := by
         have : u < 4 := hu
@@ -307,37 +307,37 @@ theorem exCtx_good_R_R : GoodCtx exCtx_R_R :=
           | exact Or.inr h03
           | (exfalso; revert hc; decide) }
 
-def exActs_R_R : List SAction :=
+def exActs_R_R_R : List SAction :=
   [.poll, .poll, .drop 0, .poll, .poll, .drop 2, .interrupt, .drop 1, .poll, .dropStream, .drop 3]
 
 /-- a plain stream on the diamond with a real conflict (0 writes / 3 reads resource 7): the run shows
-    the 11 events of `exEvs_R_R`, 24 predicate instances are evaluated on them, all hold -/
-example : sObsEvents exCtx_R_R.c (sinit exCtx_R_R.c) exActs_R_R = exEvs_R_R ∧
-    (spredRun exCtx_R_R {} exEvs_R_R).2.length = 24 ∧
-    ∀ n ∈ (spredRun exCtx_R_R {} exEvs_R_R).2, n.ok = true := by
-  have hev : sObsEvents exCtx_R_R.c (sinit exCtx_R_R.c) exActs_R_R = exEvs_R_R := by decide
-  have hsome : (srun exCtx_R_R.c true (sinit exCtx_R_R.c) exActs_R_R).isSome = true := by decide
+    the 11 events of `exEvs_R_R_R`, 24 predicate instances are evaluated on them, all hold -/
+example : sObsEvents exCtx_R_R_R.c (sinit exCtx_R_R_R.c) exActs_R_R_R = exEvs_R_R_R ∧
+    (spredRun exCtx_R_R_R {} exEvs_R_R_R).2.length = 24 ∧
+    ∀ n ∈ (spredRun exCtx_R_R_R {} exEvs_R_R_R).2, n.ok = true := by
+  have hev : sObsEvents exCtx_R_R_R.c (sinit exCtx_R_R_R.c) exActs_R_R_R = exEvs_R_R_R := by decide
+  have hsome : (srun exCtx_R_R_R.c true (sinit exCtx_R_R_R.c) exActs_R_R_R).isSome = true := by decide
   obtain ⟨s', hs'⟩ := Option.isSome_iff_exists.mp hsome
-  have hrun := sobsRun_of_srun exCtx_R_R _ _ _ hs'
+  have hrun := sobsRun_of_srun exCtx_R_R_R _ _ _ hs'
   rw [hev] at hrun
-  exact ⟨hev, by decide, spreds_hold exCtx_good_R_R (fun _ => Or.inl rfl) hrun⟩
+  exact ⟨hev, by decide, spreds_hold exCtx_good_R_R_R (fun _ => Or.inl rfl) hrun⟩
 
 /-- an interruptible stream (`FinishCurrent`) on the diamond: park, signal, drop, the item that was
     being waited for comes as `Interrupted(Some 2)` (the C08 bound `1` is attained), then `None` -/
-def exCtxI_R_R : MonCtx :=
-  { exCtx_R_R with c := { exDiamond_I with strat := .finish }, interruptible := true }
+def exCtxI_R_R_R : MonCtx :=
+  { exCtx_R_R_R with c := { exDiamond_I with strat := .finish }, interruptible := true }
 
-theorem exCtxI_good_R_R : GoodCtx exCtxI_R_R :=
-  { exCtx_good_R_R with good := goodCfg_of_check (by decide) }
+theorem exCtxI_good_R_R_R : GoodCtx exCtxI_R_R_R :=
+  { exCtx_good_R_R_R with good := goodCfg_of_check (by decide) }
 
-example : sObsEvents exCtxI_R_R.c (sinit exCtxI_R_R.c) [.poll, .poll, .interrupt, .drop 0, .poll, .poll, .drop 2] =
+example : sObsEvents exCtxI_R_R_R.c (sinit exCtxI_R_R_R.c) [.poll, .poll, .interrupt, .drop 0, .poll, .poll, .drop 2] =
       [.poll (.some 0), .poll (.pending false), .intr, .drop 0 true, .poll (.isome 2), .poll .none,
        .drop 2 true] ∧
-    ∀ n ∈ (spredRun exCtxI_R_R {} (sObsEvents exCtxI_R_R.c (sinit exCtxI_R_R.c)
+    ∀ n ∈ (spredRun exCtxI_R_R_R {} (sObsEvents exCtxI_R_R_R.c (sinit exCtxI_R_R_R.c)
         [.poll, .poll, .interrupt, .drop 0, .poll, .poll, .drop 2])).2, n.ok = true := by
-  have hsome : (srun exCtxI_R_R.c true (sinit exCtxI_R_R.c)
+  have hsome : (srun exCtxI_R_R_R.c true (sinit exCtxI_R_R_R.c)
       [.poll, .poll, .interrupt, .drop 0, .poll, .poll, .drop 2]).isSome = true := by decide
   obtain ⟨s', hs'⟩ := Option.isSome_iff_exists.mp hsome
-  exact ⟨by decide, spreds_hold_interruptible exCtxI_good_R_R rfl (sobsRun_of_srun exCtxI_R_R _ _ _ hs')⟩
+  exact ⟨by decide, spreds_hold_interruptible exCtxI_good_R_R_R rfl (sobsRun_of_srun exCtxI_R_R_R _ _ _ hs')⟩
 
 end FG
